@@ -26,7 +26,7 @@ class EngineC(tops.Component):
         for _, m in cr.oracle:
             if ws[0] == "life" and ws[6] == "regrace" and "C19: an accepted Register call delivered no result" in m:
                 ids.add("register-races-with-shutdown")
-            elif ws[0] == "life" and not (ws[3] == "1" and ws[1] == "tcp") and int(ws[5]) > 0 and "C07:" in m and "after Run returned" in m \
+            elif ws[0] == "life" and not (ws[3] == "1" and ws[1] == "tcp") and (int(ws[5]) > 0 or ws[6] == "stormstop") and "C07:" in m and "after Run returned" in m \
                     and re.search(r"leaked (socket\(connected\),?)+$", m.strip()):
                 ids.add("accepted-socket-leaks-when-loop-exits-first")
             else:
@@ -52,7 +52,7 @@ class EngineHandover(EngineC):
     suffix = "-ho"
     ncases = (36, 600)
     PLAN = [("connection_unix.go", "entry:newStreamConn:fd;el.idx"),
-            ("acceptor_unix.go", "entry:accept0:fd,entry:accept:fd"),
+            ("acceptor_unix.go", "socket.Accept,entry:accept0:fd,entry:accept:fd"),
             ("eventloop_unix.go", "socket.Dup,entry:register0:c.fd;el.idx,entry:close:c.fd;el.idx,entry:closeConns:el.idx")]
 
     def __init__(self):
